@@ -23,7 +23,10 @@ does not define, see DESIGN.md section 3.2 "Ambiguity guard":
   * a read from a nested scope that passes through an enclosing scope in which the name is assigned
     unconditionally *later* (its first mention in that scope's own statement list is an unconditional store that
     has not executed yet) while a binding exists further out (outer scope or render data);
-  * a macro default that reads a later, not yet bound parameter;
+  * a macro default that reads its own or a later, not yet bound parameter -- unless the caller asks for one of the two
+    readings the documentation allows (interpret_ex(param_mode="undefined" | "outer")) and accepts either;
+  * a keyword argument naming an already bound parameter, or a call block, for a macro that reads ``kwargs``; ``varargs``
+    / ``kwargs`` mentioned only in a nested macro;
   * a call block invoking a macro that mentions ``caller`` only inside a nested macro;
   * printing a container that holds an undefined value (its repr is not documented);
   * step / recursion / value-size budget exceeded (Budget), ``autoescape`` blocks (Unsupported).
@@ -101,12 +104,17 @@ class Undef:
 
 
 class MacroV:
-    __slots__ = ("node", "scope", "seq", "direct_caller", "deep_caller")
+    __slots__ = ("node", "scope", "seq", "direct_caller", "deep_caller", "varargs", "kwargs", "special_unclear")
 
     def __init__(self, node, scope, seq):
         self.node, self.scope, self.seq = node, scope, seq
         self.direct_caller = _mentions_caller(node[4], deep=False)
         self.deep_caller = self.direct_caller or _mentions_caller(node[4], deep=True)
+        # the documented special variables: surplus positional / keyword arguments of the call
+        self.varargs = _mentions_special(node[4], "varargs", deep=False)
+        self.kwargs = _mentions_special(node[4], "kwargs", deep=False)
+        self.special_unclear = (self.varargs != _mentions_special(node[4], "varargs", deep=True)
+                                or self.kwargs != _mentions_special(node[4], "kwargs", deep=True))
 
 
 class CallerV:
@@ -133,6 +141,20 @@ class LoopV:
         i, n = self.index0, self.length
         return {"index": i + 1, "index0": i, "revindex": n - i, "revindex0": n - i - 1, "first": i == 0,
                 "last": i == n - 1, "length": n, "depth": self.depth0 + 1, "depth0": self.depth0}[a]
+
+
+def _mentions_special(body, which, deep):
+    for s in body:
+        for e in G.stmt_exprs(s):
+            for x in G.walk_expr(e):
+                if x[0] == "special" and x[1] == which:
+                    return True
+        for kind, b in G.sub_bodies(s):
+            if kind in ("macro", "callblock") and not deep:
+                continue
+            if _mentions_special(b, which, deep):
+                return True
+    return False
 
 
 def _mentions_caller(body, deep):
@@ -244,10 +266,11 @@ class Scope:
 
 
 class Result:
-    __slots__ = ("kind", "value", "labels", "why")
+    __slots__ = ("kind", "value", "labels", "why", "param_amb")
 
-    def __init__(self, kind, value, labels, why=""):
+    def __init__(self, kind, value, labels, why="", param_amb=False):
         self.kind, self.value, self.labels, self.why = kind, value, labels, why
+        self.param_amb = param_amb  # a macro default read its own / a later unbound parameter (see interpret_ex)
 
     def __repr__(self):
         return "Result(%s, %r, %s)" % (self.kind, self.value, sorted(self.labels))
@@ -268,9 +291,13 @@ class Interp:
     MAX_CALL_DEPTH = 12
     MAX_LOOP_DEPTH = 6
 
-    def __init__(self, data, guard=True):
+    def __init__(self, data, guard=True, param_mode=None):
         self.data = data
         self.guard = guard  # False: also decide the "assigned later in an enclosing scope" reads (known finding F38)
+        # a macro default that names its own or a later, not yet bound parameter: the documentation does not say
+        # whether it sees an undefined value ("undefined") or the enclosing variable ("outer"); None = decline
+        self.param_mode = param_mode
+        self.param_amb = False
         self.steps = 0
         self.seq = 0
         self.labels = set()
@@ -319,7 +346,13 @@ class Interp:
                 found, val, fseq = True, s.vars[name], s.seqs.get(name)
                 break
             if s.blocked is not None and name in s.blocked:
-                raise Ambiguous("macro default reads a later parameter")
+                self.param_amb = True
+                if self.param_mode is None:
+                    raise Ambiguous("macro default reads its own or a later parameter")
+                if self.param_mode == "undefined":
+                    return Undef(name)
+                s, first = s.parent, False  # "outer": the unbound parameter does not hide the enclosing variable
+                continue
             if name in s.decl:
                 if first:
                     self.labels.add("read_before_write")
@@ -440,6 +473,8 @@ class Interp:
             c = self.lookup("caller", sc)
             args = [self.ev(x, sc) for x in e[1]]
             return self.call_caller(c, args)
+        if k == "special":
+            return self.lookup(e[1], sc)
         if k == "looprec":
             v = self.lookup(e[1], sc)
             if not isinstance(v, list):
@@ -477,7 +512,7 @@ class Interp:
         raise Unsupported("filter %s" % name)
 
     def iterate(self, v):
-        if isinstance(v, (list, str)):
+        if isinstance(v, (list, str, tuple, dict)):
             return list(v)
         if isinstance(v, Undef):
             return []
@@ -494,20 +529,38 @@ class Interp:
         _, name, params, defaults, body = m.node
         if caller is not None and m.direct_caller != m.deep_caller:
             raise Ambiguous("caller mentioned only in a nested macro")
-        # argument binding as documented for macros (no varargs / kwargs here: surplus arguments are errors)
-        if len(args) > len(params):
-            raise RefError("type", "too many positional arguments")
+        if m.special_unclear:
+            raise Ambiguous("varargs / kwargs mentioned only in a nested macro")
+        # argument binding as documented for macros: surplus positional arguments end up in ``varargs``, unconsumed
+        # keyword arguments in ``kwargs`` -- when the body uses that special variable; otherwise they are errors
         bound = dict(zip(params, args))
+        extra_kw = {}
+        bad_kw = False
         for kw, v in kwargs:
-            if kw in bound or kw not in params:
-                raise RefError("type", "unexpected keyword argument")
-            bound[kw] = v
+            if kw in params and kw not in bound:
+                bound[kw] = v
+            elif m.kwargs:
+                if kw in bound:
+                    raise Ambiguous("keyword argument naming an already bound parameter of a macro that reads kwargs")
+                extra_kw[kw] = v
+            else:
+                bad_kw = True
         if caller is not None and not m.direct_caller:
+            if m.kwargs:
+                raise Ambiguous("call block invoking a macro that reads kwargs but not caller")
             raise RefError("type", "macro takes no caller")
+        if bad_kw:
+            raise RefError("type", "unexpected keyword argument")
+        if len(args) > len(params) and not m.varargs:
+            raise RefError("type", "too many positional arguments")
         self.call_depth += 1
         if self.call_depth > self.MAX_CALL_DEPTH:
             raise Budget("call depth")
-        sc = Scope(m.scope, body, pre=list(params) + ["caller"], pre_exprs=defaults, closure_seq=m.seq)
+        sc = Scope(m.scope, body, pre=list(params) + ["caller", "varargs", "kwargs"], pre_exprs=defaults, closure_seq=m.seq)
+        if m.varargs:
+            sc.vars["varargs"] = tuple(args[len(params):])
+        if m.kwargs:
+            sc.vars["kwargs"] = extra_kw
         for p in params:
             if p in bound:
                 sc.vars[p] = bound[p]
@@ -539,6 +592,9 @@ class Interp:
             raise Ambiguous("caller is not a call block")
         _, params, _call, body = c.node
         if len(args) > len(params):
+            if _mentions_special(body, "varargs", deep=True):
+                # a call block whose body (here: a macro nested in it) mentions varargs: undocumented
+                raise Ambiguous("surplus caller() arguments for a call block that mentions varargs")
             raise RefError("type", "too many arguments for the call block")
         self.call_depth += 1
         if self.call_depth > self.MAX_CALL_DEPTH:
@@ -699,15 +755,18 @@ class Interp:
         return "".join(out)
 
 
-def interpret_ex(prog, data, guard=True):
-    it = Interp(data, guard)
+def interpret_ex(prog, data, guard=True, param_mode=None):
+    """param_mode: how a macro default that names its own / a later unbound parameter is read -- None: declined
+    (Ambiguous); "undefined" / "outer": the two readings the documentation allows.  Result.param_amb tells whether
+    such a read happened, i.e. whether the two modes can differ at all."""
+    it = Interp(data, guard, param_mode)
     try:
-        return Result("ok", it.run(prog), it.labels)
+        return Result("ok", it.run(prog), it.labels, "", it.param_amb)
     except RefError as e:
         it.labels.add("error")
-        return Result("error", e.kind, it.labels, str(e))
+        return Result("error", e.kind, it.labels, str(e), it.param_amb)
     except Declined as e:
-        return Result("declined", type(e).__name__, it.labels, str(e))
+        return Result("declined", type(e).__name__, it.labels, str(e), it.param_amb)
     except (_Break, _Continue):
         return Result("declined", "Unsupported", it.labels, "break/continue outside a loop")
 
